@@ -31,6 +31,27 @@ def outcome(entry):
                 res["dumps"] = blackbird.dumps(p)
             except Exception as e:
                 res["dumps"] = "dumps-error:%s" % type(e).__name__
+            try:
+                again = blackbird.dumps(p)
+            except Exception as e:
+                again = "dumps-error:%s" % type(e).__name__
+            # serialising the same program object a second time in the same process gives the same text
+            res["dumps_repeatable"] = again == res["dumps"]
+            if d:
+                # the same main script given as text while the process stands in the tree's root directory; the directory
+                # the interpreter was started in (and blackbird imported in) differs between the children
+                here = os.getcwd()
+                try:
+                    os.chdir(d)
+                    with open(os.path.join(d, entry["main"]), encoding="ascii", newline="") as f:
+                        text = f.read()
+                    if os.path.dirname(entry["main"]) == "":
+                        try:
+                            res["loads_in_root"] = canon.snapshot(blackbird.loads(text))
+                        except Exception as e:
+                            res["loads_in_root"] = "%s: %s" % (type(e).__name__, str(e).replace(d, "<ROOT>"))
+                finally:
+                    os.chdir(here)
             return res
     except RecursionError:
         return {"exc": "RecursionError"}
@@ -45,6 +66,7 @@ def outcome(entry):
 
 
 def main():
+    import blackbird  # noqa: F401  (imported in the start directory, before any chdir)
     corpus = json.load(open(sys.argv[1]))
     out = {}
     for e in corpus:
